@@ -46,6 +46,25 @@ func init() {
 				{"nope(1)", "", "", "", "0"},
 				{"vars {\n monetary $c\n}\nsend [USD 10] (\n source = max $c from @a\n destination = @d\n)", "c=mon:EUR", "a", "", "0"},
 			}
+			// one run per error class of the library (raw channel): exit status and message must follow
+			errRuns := []rc{
+				{"set_tx_meta(42, 1)", "", "", "", "0"},
+				{"set_tx_meta(\"k\", $nope)", "", "", "", "0"},
+				{"set_tx_meta(\"k\")", "", "", "", "0"},
+				{"vars {\n foo $n\n}\nset_tx_meta(\"k\", 1)", "n=text:1", "", "", "0"},
+				{"send [USD 10] (\n source = @world\n destination = { 1/2 to @d 1/3 to @e }\n)", "", "", "", "0"},
+				{"send [USD *] (\n source = @world\n destination = @d\n)", "", "", "", "0"},
+				{"send [USD *] (\n source = { 1/2 from @a 1/2 from @b }\n destination = @d\n)", "", "a,b", "", "0"},
+				{"vars {\n account $x = meta(@a, \"k\")\n}\nsend [USD 1] (\n source = $x\n destination = @d\n)", "", "a", "", "0"},
+				{"vars {\n account $x\n}\nsend [USD 1] (\n source = @world\n destination = $x\n)", "x=text:not an account", "", "", "0"},
+				{"vars {\n number $n\n}\nset_tx_meta(\"k\", $n)", "n=text:12abc", "", "", "0"},
+				{"vars {\n monetary $m = balance(@a, USD)\n}\nsend $m (\n source = @world\n destination = @d\n)", "", "a", "", "0"},
+				{"nope(1)", "", "", "", "0"},
+			}
+			for _, r := range errRuns {
+				cases = append(cases, Case{ID: "run raw " + strings.ReplaceAll(r.script, "\n", " ") + " flag=" + r.flag, Pkg: "internal/cmd", Fn: "ZZC20Run",
+					Args: []string{"raw", r.script, r.spec, r.accounts, r.meta, r.flag}, Tag: "run-command/error-classes"})
+			}
 			for ri, r := range runs {
 				chans := []string{"raw", "stdin", "files"}
 				if ri < 4 || ri == 7 || tier == "thorough" {
@@ -59,7 +78,7 @@ func init() {
 			return cases
 		},
 		Bounds: stdBounds(
-			map[string]interface{}{"check": "every 6th text of the C18 quick corpus + 15 valid / warning-only scripts", "run": "15 scripts x 3 input channels (4 of them also through 4 mixed channels: script path + stdin, files + variables on stdin, raw + files, path + raw), JSON output; balances, numbers and monetary amounts symbolic (beyond 2^64 included)"},
+			map[string]interface{}{"check": "every 6th text of the C18 quick corpus + 15 valid / warning-only scripts", "run": "16 scripts x 3 input channels + 12 scripts failing with one error class each (4 of them also through 4 mixed channels: script path + stdin, files + variables on stdin, raw + files, path + raw), JSON output; balances, numbers and monetary amounts symbolic (beyond 2^64 included)"},
 			map[string]interface{}{"check": "every 5th text of the C18 thorough corpus", "run": "15 scripts x 7 channels"}),
 		Assumptions: []string{
 			"SCOPED CLAIM: the command functions check() and run() are executed, not the process: cobra flag parsing, main()'s recover/sentry wrapper and the real exit status of the binary are outside",
